@@ -75,6 +75,12 @@ private:
 
     void initialize()
     {
+        // the jump buffer set while reading the header belongs to a frame that has returned
+        if( setjmp( png_jmpbuf( this->get()->_struct )))
+        {
+            io_error( "png is invalid" );
+        }
+
         // Now it's time for some transformations.
 
         if( little_endian() )
@@ -154,6 +160,11 @@ private:
 
     void read_scanline( byte_t* dst )
     {
+        if( setjmp( png_jmpbuf( this->get()->_struct )))
+        {
+            io_error( "png is invalid" );
+        }
+
         png_read_row( this->get()->_struct
                     , dst
                     , NULL
